@@ -97,3 +97,49 @@ def check_wrapper(nin, order, extra, nested):
     else:
         got = irinterp.Interp().ev(g2)(*vals)
     return None if _same(want, got) else f"inlined wrapper computes {np.asarray(got).tolist()} instead of {np.asarray(want).tolist()}"
+
+
+def check_liveness(variant):
+    """hand-built graphs in which a value v is (a) read by a nested function (closure) or (b) read again by a later outer statement, after a statement that
+    could take over v's name; the compiled function and the returned text must agree with the plain-Python reference. Returns None or a description."""
+    py = tracer.signature.python
+    npx = py.import_("numpy", as_="np")
+    x = py.Value(None)
+    closure = bool(variant & 1)
+    later_outer = bool(variant & 2)
+    chain = 1 + ((variant >> 2) & 1)
+    s = npx.add(x, 1.0)
+    for _ in range(chain - 1):
+        s = npx.multiply(s, 3.0)
+    t = npx.subtract(s, 2.0)  # candidate for re-using the name of s
+    outs = [t]
+    if later_outer:
+        outs.append(npx.negative(s))  # s is still needed after t was defined
+    if closure:
+        def inner(y):
+            return npx.multiply(y, s)
+        g = py.function(inner, args=[py.Value(None)])
+        outs.append(py.builtins.list(py.builtins.map(g, t)))
+    graph = tracer.Graph([x], tuple(outs), name="op")
+    xin = np.asarray([0.0, 1.0, 2.0, 5.0])
+    sv = xin + 1.0
+    for _ in range(chain - 1):
+        sv = sv * 3.0
+    tv = sv - 2.0
+    exp = [tv]
+    if later_outer:
+        exp.append(-sv)
+    if closure:
+        exp.append([y * sv for y in tv])
+    try:
+        function, code = tracer.compiler.python.compile(graph, return_code=True)
+        ns = {}
+        exec(code, ns, ns)
+        for label, fn in (("compiled function", function), ("returned text", ns["op"])):
+            got = fn(xin.copy())
+            for a, b in zip(got, exp):
+                if not np.allclose(np.asarray(a, dtype=float), np.asarray(b, dtype=float)):
+                    return f"liveness variant {variant} (closure={closure}, later outer reader={later_outer}, chain={chain}): {label} differs from the reference:\n{code}"
+    except Exception as e:  # noqa
+        return f"liveness variant {variant}: {type(e).__name__}: {e}"
+    return None
